@@ -78,9 +78,15 @@ impl Follow for Header {
     }
 }
 impl Follow for ProtectedHeader {
-    fn follow(&self, _aad: &[u8], _payload: &[u8]) {
+    fn follow(&self, aad: &[u8], payload: &[u8]) {
         let _ = self.is_empty();
         let _ = self.clone().cbor_bstr();
+        // a decoded header encodes again (C07), so the structure helpers take it as a protected header
+        // without hitting their "failed to serialize header" panic
+        let _ = coset::sig_structure_data(coset::SignatureContext::CoseSign1, self.clone(), None, aad, payload);
+        let _ = coset::sig_structure_data(coset::SignatureContext::CounterSignature, ProtectedHeader::default(), Some(self.clone()), aad, payload);
+        let _ = coset::mac_structure_data(coset::MacContext::CoseMac0, self.clone(), aad, payload);
+        let _ = coset::enc_structure_data(coset::EncryptionContext::CoseEncrypt0, self.clone(), aad);
     }
 }
 impl Follow for CoseSignature {}
